@@ -211,6 +211,12 @@ def bb_scenarios(rng, tier):
         R2 = bb_request(ts, "early-%s" % tolname)
         scen("early-late-%s" % tolname, "replay-at-edge", [cfg(tolname)],
              [{"op": "load", "cfg": 0}, req(t - tol - 1, R2), req(t - tol, R2), req(t - tol, R2), req(t, R2), req(t + tol, R2), req(t + tol + 1, R2)])
+    # 1b. the store refuses the enqueue of a verified request (503): its nonce is spent all the same - the same bytes presented
+    #     again are a replay (on a fan-out route a second acceptance would duplicate the targets already queued)
+    for k, gap in enumerate((1, SEC, DUR["5m"])):
+        Rf = bb_request(ts, "storefail-%d" % k)
+        scen("store-failure-%d" % k, "replay-after-503", [cfg()],
+             [{"op": "load", "cfg": 0}, req(t, Rf, fail_at=1), req(t + gap, Rf), req(t + gap, Rf), req(t + gap + 1, bb_request(ts, "storefail-other-%d" % k))])
     # 2. reloads between original and replay
     R = bb_request(ts, "rl-1")
     scen("reload-same", "replay-after-reload", [cfg()], [{"op": "load", "cfg": 0}, req(t, R), {"op": "load", "cfg": 0}, req(t + 5, R),
@@ -445,6 +451,8 @@ def main(ctx, replay):
             if pk == "req":
                 dist["bb_requests"] += 1
                 exp = 202 if mres[idx] == 1 else 401
+                if exp == 202 and st.get("fail_at"):
+                    exp = 503          # verified (the nonce is spent), then the store refused the enqueue
                 dist["bb_%d" % io["status"]] = dist.get("bb_%d" % io["status"], 0) + 1
                 if io["status"] != exp or delta != (1 if exp == 202 else 0):
                     problems.append("step %d: status %d queue delta %d, model expects %d / %d" % (si, io["status"], delta, exp, 1 if exp == 202 else 0))
